@@ -51,7 +51,7 @@ class C16(Scenario):
                    "positions whose constructor copies its argument (Bin flows and values, Fraction value, sparse value "
                    "templates) do not share an object afterwards and are control cases"]
     expected_faults = ["shared_node"]
-    expected_probes = ["shared_prefilled", "shared_used_in_other_tree", "shared_numpy_attempt", "control_shared_template", "parent_prefilled", "explicit_bins_position", "assigned_slot", "reloaded_root"]
+    expected_probes = ["shared_prefilled", "shared_used_in_other_tree", "shared_numpy_attempt", "control_shared_template", "parent_prefilled", "explicit_bins_position", "assigned_slot", "reloaded_root", "fill_inside_another_fill"]
 
     # ------------------------------------------------------------------ generation
     def generate(self, rng, tier, profile):
@@ -184,7 +184,11 @@ class C16(Scenario):
                         steps.append({"op": "prefill", "who": nm, "rec": s.randrange(len(recs)), "w": s.pick(specmod.POS_WEIGHTS)})
         steps.append({"op": "buildtree"})
         for _ in range(s.randint(1, 4)):
-            if s.chance(0.65):
+            if s.chance(0.12):
+                # the fill is issued while another, unrelated aggregator is in the middle of its own fill (from inside its
+                # quantity function): a re-entrant interleaving of two fills in one thread
+                steps.append({"op": "fill_nested", "rec": s.randrange(len(recs)), "w": s.pick(specmod.POS_WEIGHTS)})
+            elif s.chance(0.65):
                 steps.append({"op": "fill", "rec": s.randrange(len(recs)), "w": s.pick(specmod.POS_WEIGHTS)})
             else:
                 steps.append({"op": "fillnumpy", "rows": [s.randrange(len(recs)) for _ in range(s.randint(1, 4))], "box": s.pick(["dict", "frame", "rec"]),
@@ -258,11 +262,24 @@ class C16(Scenario):
                         return
                     w.bump("probe_reloaded_root")
                 w.put(2, tree)
-            elif op in ("fill", "fillnumpy"):
+            elif op in ("fill", "fillnumpy", "fill_nested"):
                 if tree is None:
                     continue
                 before = snapshot_docs(w)
-                if op == "fill":
+                if op == "fill_nested":
+                    if st["rec"] >= len(w.records):
+                        continue
+                    import histogrammar as hg
+
+                    def reentrant(d, t=tree, wt=st["w"]):
+                        t.fill(d, wt)
+                        return 1.0
+
+                    outer = hg.Sum(reentrant)
+                    o = call(outer.fill, w.records[st["rec"]], 1.0)
+                    w.bump("probe_fill_inside_another_fill")
+                    op = "fill"
+                elif op == "fill":
                     if st["rec"] >= len(w.records):
                         continue
                     o = call(tree.fill, w.records[st["rec"]], st["w"])
